@@ -34,7 +34,8 @@ static Plan gen_fileset(const std::string &prop, const std::string &tier, uint64
 	p.seti("interval", iv0);
 	p.seti("ffilter", r.chance(1, 4) ? 1 + r.below(2) : 0);
 	p.seti("rfilter", r.chance(1, 5) ? 1 + r.below(2) : 0);
-	p.seti("mfunc", r.chance(2, 3) ? 0 : 1 + r.below(3));	// merge function of the first handle: union / min / lcp / max
+	p.seti("mfunc", r.chance(2, 3) ? 0 : 1 + r.below(3));
+	p.seti("dupsort", r.chance(1, 4) ? 1 : 0);	// merge function of the first handle: union / min / lcp / max
 	auto newver = [&]() {
 		std::vector<std::string> a{ std::to_string(r.below(3)) };	// 0 rewrite in place (new mtime), 1 rename (new inode, new mtime), 2 rename within the same second (new inode, SAME mtime)
 		for (int i = 0; i < nfiles; i++) {
@@ -85,7 +86,7 @@ static Plan gen_fileset(const std::string &prop, const std::string &tier, uint64
 			for (int k = 0; k < MAXH; k++) if (!halive[k]) { nh = k; break; }
 			if (nh < 0) continue;
 			uint32_t iv = ivals[r.below(6)];
-			p.op("dup", { std::to_string(h), std::to_string(nh), std::to_string(r.chance(1, 3) ? 1 + r.below(2) : 0), std::to_string(r.chance(1, 4) ? 1 + r.below(2) : 0), std::to_string(iv), std::to_string(r.chance(1, 2) ? 0 : 1 + r.below(3)) });
+			p.op("dup", { std::to_string(h), std::to_string(nh), std::to_string(r.chance(1, 3) ? 1 + r.below(2) : 0), std::to_string(r.chance(1, 4) ? 1 + r.below(2) : 0), std::to_string(iv), std::to_string(r.chance(1, 2) ? 0 : 1 + r.below(3)), std::to_string(r.chance(1, 4) ? 1 : 0) });
 			halive[nh] = true; hint[nh] = iv;
 		} else {
 			int alive = 0;
@@ -261,9 +262,12 @@ static RunResult exec_fileset(const Plan &p)
 		}
 		return k;
 	};
-	auto make_opts = [&](int ff, int rf, uint32_t iv, int mf) {
+	auto make_opts = [&](int ff, int rf, uint32_t iv, int mf, bool ds) {
 		mtbl_fileset_options *fo = mtbl_fileset_options_init();
 		mtbl_fileset_options_set_merge_func(fo, merge_union_cb, stateless_merge_ctx(mf));
+		// a dupsort function next to a merge function only fixes the order in which equal keys are folded; the folds are
+		// commutative, so the expected view is the same
+		if (ds) { mtbl_fileset_options_set_dupsort_func(fo, dupsort_bytes_cb, nullptr); res.probes["handle-with-dupsort"]++; }
 		mtbl_fileset_options_set_reload_interval(fo, iv);
 		if (ff) mtbl_fileset_options_set_filename_filter_func(fo, ffilter_cb, (void *)(intptr_t)ff);
 		if (rf) mtbl_fileset_options_set_reader_filter_func(fo, rfilter_cb, (void *)(intptr_t)rf);
@@ -341,7 +345,7 @@ static RunResult exec_fileset(const Plan &p)
 				w.hs[0].interval = (uint32_t)p.geti("interval", 60);
 				w.hs[0].ffilter = (int)p.geti("ffilter", 0); w.hs[0].rfilter = (int)p.geti("rfilter", 0);
 				w.hs[0].mfunc = (int)(p.geti("mfunc", 0) % 4);
-				fo0 = make_opts(w.hs[0].ffilter, w.hs[0].rfilter, w.hs[0].interval, w.hs[0].mfunc);
+				fo0 = make_opts(w.hs[0].ffilter, w.hs[0].rfilter, w.hs[0].interval, w.hs[0].mfunc, p.geti("dupsort", 0) != 0);
 				w.hs[0].fs = mtbl_fileset_init(w.setpath.c_str(), fo0);
 				mtbl_fileset_options_destroy(&fo0);
 				w.hs[0].alive = true;
@@ -367,7 +371,7 @@ static RunResult exec_fileset(const Plan &p)
 			dst.ffilter = (int)(o.argi(2) % 3); dst.rfilter = (int)(o.argi(3) % 3); dst.interval = (uint32_t)o.argi(4);
 			dst.mfunc = (int)(o.argi(5) % 4);
 			if (dst.mfunc != src.mfunc) res.probes["dup-with-other-merge-function"]++;
-			mtbl_fileset_options *fo = make_opts(dst.ffilter, dst.rfilter, dst.interval, dst.mfunc);
+			mtbl_fileset_options *fo = make_opts(dst.ffilter, dst.rfilter, dst.interval, dst.mfunc, o.argi(6) != 0);
 			dst.fs = mtbl_fileset_dup(src.fs, fo);
 			mtbl_fileset_options_destroy(&fo);
 			dst.alive = true;
